@@ -227,14 +227,15 @@ def check_cases(ctx, cases):
             continue
         m = r["r"]
         got = (m["contents"], m["skipped"], m["dirs"])
+        # (callback order and the number of queries depend on how the implementation pops and samples:
+        #  they are not part of the property and are not compared, so that a rewrite of the work-list
+        #  handling does not break the tie)
+        if [tuple(x) for x in m["log"]] == im[3]:
+            ctx.count("schedule-replayed-exactly")
         if got != im[:3]:
             ctx.disagree(case, "filtered lists: model vs implementation", model=got, impl=im[:3])
         elif sorted(map(tuple, m["log"])) != sorted(im[3]):
             ctx.disagree(case, "callback multiset: model vs implementation", model=m["log"], impl=im[3])
-        elif [tuple(x) for x in m["log"]] != im[3]:
-            ctx.disagree(case, "callback order under the replayed schedule: model vs implementation", model=m["log"], impl=im[3])
-        elif m["queries"] != im[4]:
-            ctx.disagree(case, "number of queries: model vs implementation", model=m["queries"], impl=im[4])
         elif not m["ok"]:
             ctx.disagree(case, "model ran out of fuel", model=m)
 
